@@ -65,4 +65,43 @@ theorem accumulate (s : St) (pw : Int) (es : List Ev) (hl : s.lastsent ≤ pw) (
     simp only [next] at this hstep ⊢
     omega
 
+
+/-! ## no hold after silence (C10 `quiet_after_idle`) -/
+
+theorem totalCharge_nonneg (es : List Ev) : 0 ≤ totalCharge es := by
+  induction es with
+  | nil => simp [totalCharge]
+  | cons x xs ih =>
+    have := charge_nonneg x.chars
+    simp only [totalCharge, List.map_cons, List.sum_cons] at ih ⊢
+    omega
+
+/-- no line of the run is held back -/
+def NoHold : St → List Ev → Prop
+  | _, [] => True
+  | s, e :: es => delay s e = 0 ∧ NoHold (next s e) es
+
+/-- from a state whose penalty is at most `b`, lines whose charges sum (with `b`) to at most 10 s are not held:
+elapsed time only ever lowers the penalty -/
+theorem noHold_of_budget (s : St) (pw : Int) (es : List Ev) (hl : s.lastsent ≤ pw) (hv : Valid s pw es)
+    (b : Int) (hb0 : 0 ≤ b) (hb : s.badness ≤ b) (hsum : b + totalCharge es ≤ 10 * second) : NoHold s es := by
+  induction es generalizing s pw b with
+  | nil => trivial
+  | cons e es ih =>
+    obtain ⟨h1, h2, h3, h4⟩ := hv
+    have hc := charge_nonneg e.chars
+    have hrest := totalCharge_nonneg es
+    have hT : totalCharge (e :: es) = charge e.chars + totalCharge es := by simp [totalCharge]
+    -- the new penalty is at most b + charge
+    have hn : (next s e).badness ≤ b + charge e.chars := by
+      simp only [next, rate_fst]; split <;> omega
+    have hd : delay s e = 0 := by
+      unfold delay; rw [rate_snd, rate_fst]
+      have : ¬ ((if s.badness + (charge e.chars - (e.t - s.lastsent)) < 0 then 0
+                else s.badness + (charge e.chars - (e.t - s.lastsent))) > 10 * second) := by
+        split <;> omega
+      simp [this]
+    exact ⟨hd, ih (next s e) e.w (by simp only [next]; omega) h4 (b + charge e.chars) (by omega) hn (by omega)⟩
+
+
 end Go.Flood
